@@ -200,6 +200,22 @@ pub fn iter_l() -> std::vec::IntoIter<i64> {
 pub fn ret<F>(f: F) -> F {
     f
 }
+/// operand shapes "field" / "method": a field access / method call whose value is the callback
+pub struct Holder<F> {
+    pub f: F,
+}
+impl<F> Holder<F> {
+    pub fn get(self) -> F {
+        self.f
+    }
+}
+pub fn hold<F>(f: F) -> Holder<F> {
+    Holder { f }
+}
+/// operand shape "ifelse": an `if` expression whose value is the callback
+pub fn yes() -> bool {
+    true
+}
 /// operand shape "macro": a macro invocation whose value is the callback
 #[macro_export]
 macro_rules! clos {
